@@ -80,22 +80,7 @@ func ruleR08h(c *Ctx, rule string) {
 	var order []*ssa.Function
 	// the emitting functions that compile an expression of the script (the destination compiler adds machine-made
 	// monetaries of its own: no script operand there)
-	compilesExpr := func(fn *ssa.Function) bool {
-		for _, b := range fn.Blocks {
-			for _, ins := range b.Instrs {
-				if call, ok := ins.(*ssa.Call); ok && call.Call.IsInvoke() {
-					if n := call.Call.Method.Name(); strings.HasSuffix(n, "GetLhs") || strings.HasSuffix(n, "GetRhs") {
-						return true
-					}
-				} else if ok {
-					if g := staticCallee(call); g != nil && (strings.HasSuffix(origName(g), "GetLhs") || strings.HasSuffix(origName(g), "GetRhs")) {
-						return true
-					}
-				}
-			}
-		}
-		return false
-	}
+	compilesExpr := visitsOperands
 	for _, e := range opEmissions(c) {
 		if _, ok := want[e.op]; ok && e.isOK && compilesExpr(e.fn) {
 			if byFn[e.fn] == nil {
@@ -105,13 +90,39 @@ func ruleR08h(c *Ctx, rule string) {
 		}
 	}
 	n := 0
+	const (
+		opNum uint64 = 1 << (iota + 8)
+		opMon
+	)
+	type ek struct {
+		ins ssa.Instruction
+		op  int64
+	}
 	for _, fn := range order {
-		at := map[ssa.Instruction]emission{}
+		at := map[ssa.Instruction][]emission{}
+		classes := map[*ssa.Phi][]uint64{}
 		for _, e := range byFn[fn] {
-			at[e.ins] = e
+			at[e.ins] = append(at[e.ins], e)
+			if phi, ok := e.via.(*ssa.Phi); ok && classes[phi] == nil {
+				cl := make([]uint64, len(phi.Edges))
+				for i, ed := range phi.Edges {
+					if k, ok := ed.(*ssa.Const); ok {
+						if v, ok := constInt64Of(k); ok {
+							switch want[v] {
+							case num:
+								cl[i] = opNum
+							case mon:
+								cl[i] = opMon
+							}
+						}
+					}
+				}
+				classes[phi] = cl
+			}
 		}
-		missing := map[ssa.Instruction]string{}
-		seen := map[ssa.Instruction]bool{}
+		missing := map[ek]string{}
+		seen := map[ek]bool{}
+		unknown := map[ek]bool{}
 		c.RunPaths(fn, 0, &PathRule{
 			Edge: func(pc *PathCtx, s uint64, from *ssa.BasicBlock, si int) (uint64, bool) {
 				for _, f := range pc.edgeFacts(from, si) {
@@ -146,11 +157,22 @@ func ruleR08h(c *Ctx, rule string) {
 				return s, true
 			},
 			Step: func(pc *PathCtx, s uint64, ins ssa.Instruction) uint64 {
-				e, ok := at[ins]
+				if phi, ok := ins.(*ssa.Phi); ok {
+					if cl := classes[phi]; cl != nil {
+						if pred := pc.PredBlock(); pred != nil {
+							for i, pb := range phi.Block().Preds {
+								if pb == pred && i < len(cl) {
+									s = s&^(opNum|opMon) | cl[i]
+								}
+							}
+						}
+					}
+					return s
+				}
+				es, ok := at[ins]
 				if !ok {
 					return s
 				}
-				seen[ins] = true
 				if s&same != 0 {
 					if s&(lNum|rNum) != 0 {
 						s |= lNum | rNum
@@ -159,28 +181,46 @@ func ruleR08h(c *Ctx, rule string) {
 						s |= lMon | rMon
 					}
 				}
-				l, r := lNum, rNum
-				if want[e.op] == mon {
-					l, r = lMon, rMon
-				}
-				switch {
-				case s&l == 0:
-					missing[ins] = "left"
-				case s&r == 0:
-					missing[ins] = "right"
+				for _, e := range es {
+					k := ek{e.ins, e.op}
+					l, r, cls := lNum, rNum, opNum
+					if want[e.op] == mon {
+						l, r, cls = lMon, rMon, opMon
+					}
+					if e.via != nil {
+						// the byte is chosen by an earlier branch: this alternative is the one emitted on the paths
+						// that came through the assignment of an opcode of its class
+						if s&(opNum|opMon) == 0 {
+							seen[k], unknown[k] = true, true
+							continue
+						}
+						if s&cls == 0 {
+							continue
+						}
+					}
+					seen[k] = true
+					switch {
+					case s&l == 0:
+						missing[k] = "left"
+					case s&r == 0:
+						missing[k] = "right"
+					}
 				}
 				return s
 			},
 		})
 		for _, e := range byFn[fn] {
 			n++
+			k := ek{e.ins, e.op}
 			key := fmt.Sprintf("%s:%s:operands-typed", fnName(fn), names[e.op])
 			tn := typeConstName(c, want[e.op])
 			switch {
-			case !seen[e.ins]:
+			case !seen[k]:
 				c.undecided(rule, key, e.ins.Pos(), "the emission is not reached by the path exploration")
-			case missing[e.ins] != "":
-				c.bad(rule, key, e.ins.Pos(), fmt.Sprintf("%s is emitted on a path where the static type of the %s operand was not compared equal to %s: a script mixing operand types compiles and the machine's typed pop fails at run time", names[e.op], missing[e.ins], tn))
+			case unknown[k]:
+				c.undecided(rule, key, e.ins.Pos(), "the opcode is a value chosen earlier in a shape this rule does not follow (not a join of constant assignments)")
+			case missing[k] != "":
+				c.bad(rule, key, e.ins.Pos(), fmt.Sprintf("%s is emitted on a path where the static type of the %s operand was not compared equal to %s: a script mixing operand types compiles and the machine's typed pop fails at run time", names[e.op], missing[k], tn))
 			default:
 				c.ok(rule, key, e.ins.Pos(), "on every path to the emission both operand types were compared equal to "+tn)
 			}
